@@ -518,3 +518,79 @@ Proof.
     rewrite (proj1 (unmarshal_string_escape (we_msg e))). reflexivity.
   - rewrite (Hq eq_refl). exact (eq_sym (PV_text _ _ _ _ (Hcq eq_refl))).
 Qed.
+
+(* ------------------------------------------------------------------------- *)
+(* Part E: parse back, unconditionally *)
+
+(* every encoded message parses back, under the library's own parser, to the message it denotes *)
+Theorem parse_back : forall m b, msg_rt m -> enc_msg m = Some b ->
+  parse_member b = canon m /\ parse_msgs b = InMsgs false [canon m] /\
+  parse_requests b = Parsed [to_parsed (canon m)].
+Proof. exact (parse_back_partial members_spec string_spec error_codec_spec obj_tight_spec raw_value_spec). Qed.
+
+(* the JSON layer alone sees exactly the intended key set, with "jsonrpc" bound to "2.0" *)
+Theorem independent : forall m b, msg_rt m -> enc_msg m = Some b ->
+  exists eb, raw_members b = Some (msg_fields m eb) /\ lookup k_jsonrpc (msg_fields m eb) = Some v20 /\
+             unmarshal_string v20 = Some (Some version).
+Proof. exact (independent_partial members_spec string_spec error_codec_spec). Qed.
+
+Lemma err_rt_at_mono d d' e : d' <= d -> err_rt_at d e -> err_rt_at d' e.
+Proof.
+  intros Hd [Hc Hdat]. split; [exact Hc|]. destruct Hdat as [Hdat|(q & Hq & Ht)]; [left; exact Hdat|].
+  right. exists q. split; [exact Hq|]. apply (tight_depth_mono (N.succ d)); [exact Ht | lia].
+Qed.
+
+(* a message that may sit deep may sit less deep *)
+Lemma msg_rt_at_mono d d' m : d' <= d -> msg_rt_at d m -> msg_rt_at d' m.
+Proof.
+  intros Hd [Rm Ri Rp Rr Re]. constructor.
+  - exact Rm.
+  - exact Ri.
+  - destruct Rp as [Rp|(A & B & C)]; [left; exact Rp|]. right. split; [|split; assumption].
+    apply (tight_depth_mono (N.succ d)); [exact A | lia].
+  - destruct Rr as [Rr|Rr]; [left; exact Rr|]. right. apply (tight_depth_mono (N.succ d)); [exact Rr | lia].
+  - intros e He Hm Hr. apply (err_rt_at_mono (N.succ d)); [lia | exact (Re e He Hm Hr)].
+Qed.
+
+(* an encoded message is one JSON value at the depth of its domain *)
+Lemma enc_tight d m b : N.succ (N.succ d) <= max_depth -> msg_rt_at d m -> enc_msg m = Some b -> tight_at d b = true.
+Proof.
+  intros Hd Hrt Henc. destruct (enc_msg_fields _ _ Henc) as (eb & -> & He).
+  apply obj_tight_spec; [apply msg_fields_ne | lia | exact (fields_ok string_spec error_codec_spec d m eb Hd Hrt He)].
+Qed.
+
+Lemma enc_all_spec : forall ms bl, enc_all ms = Some bl -> Forall2 (fun m b => enc_msg m = Some b) ms bl.
+Proof.
+  induction ms as [|m ms IH]; intros bl H; cbn [enc_all] in H.
+  - injection H as <-. constructor.
+  - destruct (enc_msg m) as [b|] eqn:Eb; [|discriminate]. destruct (enc_all ms) as [bl'|] eqn:E; [|discriminate].
+    injection H as <-. constructor; [exact Eb | exact (IH _ eq_refl)].
+Qed.
+
+Lemma first_byte_arr vs : first_byte (arr_text vs) = 91.
+Proof. unfold arr_text, first_byte. cbn [first_byte_k]. rewrite go_space_len_O; reflexivity. Qed.
+
+(* batches: every member of an encoded batch parses back, in order *)
+Theorem parse_back_batch : forall ms b, Forall (msg_rt_at 1) ms -> enc_msgs true ms = Some b ->
+  parse_msgs b = InMsgs true (map canon ms) /\
+  parse_requests b = Parsed (map (fun m => to_parsed (canon m)) ms).
+Proof.
+  intros ms b HF Henc.
+  assert (Hshape : enc_msgs true ms = match enc_all ms with Some bl => Some (arr_text bl) | None => None end)
+    by (destruct ms as [|m [|m2 ms2]]; reflexivity).
+  rewrite Hshape in Henc. destruct (enc_all ms) as [bl|] eqn:E; [|discriminate]. apply some_eq in Henc. subst b.
+  pose proof (enc_all_spec _ _ E) as H2. clear Hshape.
+  assert (Ht : forall v, In v bl -> tight_at 1 v = true).
+  { clear E. induction H2 as [|m b ms' bl' Hb _ IH]; intros v Hin; [contradiction|].
+    inversion HF as [|? ? Hm HF']; subst. destruct Hin as [<-|Hin]; [|exact (IH HF' v Hin)].
+    exact (enc_tight 1 m b depth_le_3 Hm Hb). }
+  assert (Hmap : map parse_member bl = map canon ms).
+  { clear E Ht. induction H2 as [|m b ms' bl' Hb _ IH]; [reflexivity|].
+    inversion HF as [|? ? Hm HF']; subst. cbn [map]. rewrite (IH HF').
+    assert (Hm0 : msg_rt m) by (apply (msg_rt_at_mono 1); [lia | exact Hm]).
+    rewrite (proj1 (parse_back m b Hm0 Hb)). reflexivity. }
+  assert (Hp : parse_msgs (arr_text bl) = InMsgs true (map canon ms)).
+  { unfold parse_msgs, split_msgs. rewrite first_byte_arr. cbn [N.eqb Pos.eqb negb].
+    rewrite (elements_spec bl Ht), Hmap. reflexivity. }
+  split; [exact Hp|]. unfold parse_requests. rewrite Hp, map_map. reflexivity.
+Qed.
